@@ -271,6 +271,10 @@ func (pb PrimaryBlock) CheckValid() (errs error) {
 		errs = multierror.Append(errs, bcfErr)
 	}
 
+	if _, crcErr := emptyCRC(pb.CRCType); crcErr != nil {
+		errs = multierror.Append(errs, fmt.Errorf("PrimaryBlock: %v", crcErr))
+	}
+
 	if destErr := pb.Destination.CheckValid(); destErr != nil {
 		errs = multierror.Append(errs, destErr)
 	}
